@@ -170,6 +170,12 @@ theorem accepted_envelope (O : Oracles) (v : WVal) (σ : Schema) (m : Msg) (h : 
   · simp [fail] at h
   · simp [fail] at h
 
+/-- the regenerated bound of `check_or_raise_id` is the protocol's 2^53 -/
+theorem id_bound_is_2_53 : idBound = 2 ^ 53 := by decide
+
+theorem idOk_iff_spec (i : Int) : idOk i = specIdOk i := by
+  simp [idOk, specIdOk, id_bound_is_2_53]
+
 /-- every code in the regenerated `MESSAGE_TYPE_MAP` is the `MESSAGE_TYPE` of the class it maps to, and there are 25 -/
 theorem typeMap_consistent : typeMap.map (fun e => (e.2, e.1)) = messageTypes := by decide
 
